@@ -693,8 +693,8 @@ class Lark(Serialize, Generic[_Return_T]):
         package_loader = FromPackageLoader(package, search_paths)
         full_path, text = package_loader(None, grammar_path)
         options.setdefault('source_path', full_path)
-        options.setdefault('import_paths', [])
-        options['import_paths'].append(package_loader)
+        # A new list: the caller's own list mustn't collect the loaders of every package it was used with
+        options['import_paths'] = [*options.get('import_paths', ()), package_loader]
         return cls(text, **options)
 
     def __repr__(self):
